@@ -1,5 +1,6 @@
 import RsomeV.Drv.ConeDual
 import RsomeV.M.Solvers
+import Mathlib.Data.Rat.Floor
 namespace RsomeV.Drv
 open Lean RsomeV.Solvers
 
